@@ -338,6 +338,12 @@ func IsFsOp(k string) bool {
 // FsOp runs a filesystem step and feeds what the shadow saw to the model.
 func (w *World) FsOp(s Step) error {
 	s.P, s.Q = w.subst(s.P), w.subst(s.Q)
+	if w.absorbing && len(w.pending) >= cap(w.W.Events)+1 {
+		// buffer full and one event in the reader's hands: the reader cannot
+		// read any more, so from here on this is an ordinary burst
+		w.absorbing = false
+		w.segBurst = true
+	}
 	err := w.fsop(s)
 	w.StepErrs = append(w.StepErrs, errstr(err))
 	w.opsInSeg++
@@ -357,7 +363,7 @@ func (w *World) FsOp(s Step) error {
 	}
 	w.noteFeatures(s, err, raws, evs)
 	if w.absorbing {
-		if len(w.pending) > cap(w.W.Events) {
+		if len(w.pending) > cap(w.W.Events)+1 {
 			// more than the buffer can absorb: the reader will park in a send;
 			// this becomes an ordinary free-running burst
 			w.absorbing = false
@@ -472,22 +478,26 @@ func (w *World) Absorb() {
 	w.Feat["absorb-segments"]++
 }
 
-// SyncAbsorb ends an absorb segment: the buffered channel must hold exactly
-// the expected events, in order, with no consumer having been present.
+// SyncAbsorb ends an absorb segment: with nobody receiving, the buffered
+// channel must hold up to its capacity of events (one more may wait in the
+// reader's hands); then everything is received and compared exactly - the
+// reader took each notification out of the kernel before the next operation,
+// so nothing can have been merged.
 func (w *World) SyncAbsorb() {
 	w.absorbing = false
 	exp := w.pending
-	opt := w.pendOpt
-	w.pending, w.pendOpt = nil, nil
-	if len(exp) > cap(w.W.Events) {
-		// not an absorb case after all; fall back to the ordinary protocol
-		w.pending, w.pendOpt = exp, opt
+	if len(exp) > cap(w.W.Events)+1 {
+		// not an absorb case after all; the ordinary protocol applies
 		w.segBurst = true
 		w.Sync(nil)
 		return
 	}
+	want := len(exp)
+	if want > cap(w.W.Events) {
+		want = cap(w.W.Events)
+	}
 	deadline := time.Now().Add(SyncTimeout)
-	for len(w.W.Events) < len(exp) {
+	for len(w.W.Events) < want {
 		time.Sleep(50 * time.Microsecond)
 		if time.Now().After(deadline) {
 			// definitive when nothing is left in the kernel queue and this
@@ -502,36 +512,18 @@ func (w *World) SyncAbsorb() {
 					busy = true
 				}
 			}
-			if q1 == 0 && q2 == 0 && !busy && len(w.W.Events) == l1 && l1 < len(exp) {
-				var got []Ev
-				for i := 0; i < l1; i++ {
-					select {
-					case ev := <-w.W.Events:
-						w.take(ev, &got, "")
-					default:
-					}
-				}
-				w.find(FMissing, "a Watcher with capacity %d and no consumer absorbed %d of %d events; the kernel queue is empty and the reader idle\n  expected:  %v\n  delivered: %v", cap(w.W.Events), l1, len(exp), exp, got)
+			if q1 == 0 && q2 == 0 && !busy && len(w.W.Events) == l1 && l1 < want {
+				w.find(FMissing, "a Watcher with capacity %d and no consumer absorbed %d of %d events; the kernel queue is empty and the reader idle\n  expected:  %v", cap(w.W.Events), l1, len(exp), exp)
 				return
 			}
-			w.wedge(fmt.Sprintf("buffer of capacity %d holds %d events, %d expected, nobody receiving", cap(w.W.Events), len(w.W.Events), len(exp)))
+			if w.wedge(fmt.Sprintf("buffer of capacity %d holds %d events, %d expected, nobody receiving", cap(w.W.Events), len(w.W.Events), want)) == wedgeRetry {
+				inconclusive("absorb segment: buffer short of events, no verdict")
+			}
 			return
 		}
 	}
-	var got []Ev
-	for i := 0; i < len(exp); i++ {
-		select {
-		case ev := <-w.W.Events:
-			w.take(ev, &got, "")
-		default:
-		}
-	}
-	seg := Segment{Burst: false, Ops: w.opsInSeg, Expected: exp, Delivered: got}
-	w.Segments = append(w.Segments, seg)
-	w.opsInSeg = 0
 	w.segBurst = false
-	w.compare(seg)
-	// anything further must not exist: the ordinary sync checks that
+	w.opsInSeg = 0
 	w.Sync(nil)
 }
 
@@ -587,7 +579,9 @@ func (w *World) waitKernelEmpty() {
 			time.Sleep(50 * time.Microsecond)
 		}
 		if i%1000 == 999 && time.Now().After(deadline) {
-			w.wedge("kernel queue not drained while plugging")
+			if w.wedge("kernel queue not drained while plugging") == wedgeRetry {
+				inconclusive("kernel queue not drained while plugging, no verdict")
+			}
 			return
 		}
 	}
@@ -667,7 +661,9 @@ func (w *World) Overflow(dir string, n int) {
 			case <-time.After(time.Millisecond):
 			}
 			if time.Now().After(deadline) {
-				w.wedge("kernel queue not drained after an overflow burst")
+				if w.wedge("kernel queue not drained after an overflow burst") == wedgeRetry {
+					inconclusive("kernel queue not drained after an overflow burst, no verdict")
+				}
 				return false
 			}
 		}
@@ -748,6 +744,7 @@ func (w *World) Sync(pre []Ev) {
 	got := pre
 	timer := time.NewTimer(SyncTimeout)
 	defer timer.Stop()
+	retries := 0
 loop:
 	for {
 		select {
@@ -768,7 +765,16 @@ loop:
 			}
 			w.gotError(err)
 		case <-timer.C:
-			w.wedge("sentinel not delivered")
+			if retries < 4 && w.wedge("sentinel not delivered") == wedgeRetry {
+				// the reader was waiting for us (we stop receiving while we look),
+				// or is merely slow on a loaded machine: keep receiving
+				retries++
+				timer.Reset(SyncTimeout)
+				continue
+			}
+			if !w.Failed() {
+				inconclusive("sentinel not delivered after %d x %v, no verdict", retries+1, SyncTimeout)
+			}
 			return
 		}
 	}
@@ -792,10 +798,20 @@ loop:
 	w.compare(seg)
 }
 
-// wedge inspects the process instead of guessing why the sentinel is late.
-func (w *World) wedge(what string) {
+const (
+	wedgeFound = iota // a finding was recorded
+	wedgeRetry        // nothing wrong seen: the caller should keep receiving
+)
+
+// wedge inspects the process instead of guessing why something is late. While
+// it looks, the harness is NOT receiving, so a reader parked in a channel send
+// is normal and proves nothing; only these states are verdicts: no reader
+// goroutine left; everything consumed and every reader asleep in poll; the
+// kernel queue non-empty while the only reader sleeps in poll; a reader stuck
+// on a lock across two dumps with nobody inside fsnotify able to run.
+func (w *World) wedge(what string) int {
 	n, _ := Fionread(w.Wfd)
-	readers := func() map[string]string { // goroutine id -> stack, for every reader loop in the process
+	readers := func() map[string]string {
 		m := map[string]string{}
 		for _, g := range FsnotifyGoroutines() {
 			if strings.Contains(g, "readEvents") {
@@ -816,7 +832,7 @@ func (w *World) wedge(what string) {
 	detail := fmt.Sprintf("%s after %v: FIONREAD=%d len(Events)=%d cap=%d, %d reader goroutine(s) in the process (%d other Watchers)", what, SyncTimeout, n, len(w.W.Events), cap(w.W.Events), len(r1), len(w.others))
 	if len(r1) == 0 {
 		w.find(FWedge, "%s; reader gone but channels open", detail)
-		return
+		return wedgeFound
 	}
 	idle := 0
 	for _, g := range r1 {
@@ -824,41 +840,42 @@ func (w *World) wedge(what string) {
 			idle++
 		}
 	}
-	if idle == len(r1) && n == 0 && len(w.W.Events) == 0 {
-		w.find(FWedge, "%s; everything consumed and every reader is waiting for the kernel: the sentinel was lost", detail)
-		return
-	}
-	if idle == len(r1) && n > 0 && len(w.others) == 0 {
-		// data is queued but the only reader sleeps in poll: confirm it stays so
+	if idle == len(r1) && len(w.W.Events) == 0 {
+		// confirm: still so a second later, and the queue did not move
 		time.Sleep(time.Second)
 		n2, _ := Fionread(w.Wfd)
 		r2 := readers()
-		if n2 == n && len(r2) == 1 {
-			for id, g := range r2 {
-				if _, same := r1[id]; same && state(g) == "IO wait" {
-					w.find(FWedge, "%s; the reader sleeps although the kernel queue is not empty\n%s", detail, g)
-					return
-				}
+		still := len(r2) == len(r1) && len(w.W.Events) == 0 && n2 == n
+		for id, g := range r2 {
+			if _, same := r1[id]; !same || state(g) != "IO wait" {
+				still = false
+			}
+		}
+		if still && n == 0 {
+			w.find(FWedge, "%s; everything consumed and every reader is waiting for the kernel: what the harness waits for was lost", detail)
+			return wedgeFound
+		}
+		if still && n > 0 && len(w.others) == 0 {
+			for _, g := range r2 {
+				w.find(FWedge, "%s; the reader sleeps although the kernel queue is not empty\n%s", detail, g)
+				return wedgeFound
+			}
+		}
+		return wedgeRetry
+	}
+	// a reader stuck on a lock: needs two dumps and nobody runnable inside fsnotify
+	if !anyFsnotifyRunnable() {
+		time.Sleep(time.Second)
+		r2 := readers()
+		for id, g := range r2 {
+			st := state(g)
+			if old, ok := r1[id]; ok && state(old) == st && (st == "sync.Mutex.Lock" || st == "semacquire") && !anyFsnotifyRunnable() {
+				w.find(FWedge, "%s; reader blocked on a lock\n%s", detail, g)
+				return wedgeFound
 			}
 		}
 	}
-	// a reader stuck in a blocking state across two dumps while the harness is receiving
-	time.Sleep(time.Second)
-	r2 := readers()
-	for id, g := range r2 {
-		st := state(g)
-		if old, ok := r1[id]; ok && state(old) == st && blockingState(st) {
-			if len(w.others) == 0 || strings.Contains(g, "handleEvent") || strings.Contains(g, "sync.(*Mutex)") {
-				w.find(FWedge, "%s; reader blocked while the harness is receiving\n%s", detail, g)
-				return
-			}
-		}
-	}
-	var all []string
-	for _, g := range r2 {
-		all = append(all, g)
-	}
-	inconclusive("%s\n%s", detail, strings.Join(all, "\n\n"))
+	return wedgeRetry
 }
 
 // dropOptional removes expected events marked optional (their watch was
@@ -1299,7 +1316,9 @@ func (w *World) Recv(n int, got *[]Ev) {
 			}
 			i--
 		case <-timer.C:
-			w.wedge(fmt.Sprintf("consumer waiting for event %d of %d that the model says are pending", i+1, n))
+			if w.wedge(fmt.Sprintf("consumer waiting for event %d of %d that the model says are pending", i+1, n)) == wedgeRetry {
+				inconclusive("partial receive: event %d of %d late, no verdict", i+1, n)
+			}
 			return
 		}
 	}
